@@ -13,6 +13,7 @@ import Driver.Blowfish
 import Driver.Scrypt
 import Driver.ShaCrypt
 import Driver.Backend
+import Driver.Libpass
 /-
 Line protocol driver: `<suite> <op> <args…>` per input line, one result line out.
 Compiled (`lean_exe modeldrv`); nothing imported here touches Mathlib.
@@ -34,6 +35,7 @@ def dispatch (line : String) : String :=
   | "scrypt" :: rest => Driver.Scrypt.handle rest
   | "shac" :: rest => Driver.ShaCrypt.handle rest
   | "backend" :: rest => Driver.Backend.handle rest
+  | "lp" :: rest => Driver.Libpass.handle rest
   | _ => Driver.bad
 
 partial def loop (h : IO.FS.Stream) (out : IO.FS.Stream) : IO Unit := do
